@@ -108,6 +108,7 @@ func (e *Engine) pointeeKeys(pt types.Type) []string {
 
 var libMods = map[string][]string{
 	"(*strings.Builder).WriteString": builderKeys,
+	"fmt.Fprintf":                    builderKeys,
 	"(*strings.Builder).WriteByte":   builderKeys,
 	"(*strings.Builder).WriteRune":   builderKeys,
 	"(*strings.Builder).Reset":       builderKeys,
